@@ -15,3 +15,4 @@ package rsyncchecksum
 //@ func rsyncchecksum.ReaderChecksum
 //@   modifies ghost.acc, ghost.objClock, rsyncwire.CountingReader.BytesRead, rsyncwire.CountingWriter.BytesWritten
 //@   ensures [not-a-walk-sentinel] !isSkipDir(err)
+//@   ensures [sum-of-reader] err == nil ==> bid(result) == md4Of(accApp(accEmpty, readerContent(data(r))))
